@@ -192,7 +192,9 @@ def split_cases(path):
 
 # ------------------------------------------------------------------ generators
 CAPS = ["a.pcap", "b.pcap", "dir/c.pcap", "Z.pcap", "a.pcap.1", "b", "zz-last.pcapng"]
-CHUNKS_SPECIAL = [0, 1, 2, 65534, 65535, 65536, 65537, 70000, 131070, 131071, 200000]
+# 64 KiB record split; bufio.Writer/Reader default 4096; AddIndex segmentation block 4096 (flush at 4086); io.CopyN 32 KiB
+CHUNKS_SPECIAL = [0, 1, 2, 127, 128, 4085, 4086, 4087, 4095, 4096, 4097, 8191, 8192, 8193, 16383, 16384, 32767, 32768, 32769,
+                  65534, 65535, 65536, 65537, 70000, 131070, 131071, 200000]
 EMPTY_RUNS = [0, 1, 2, 253, 254, 255, 256, 257, 300, 509, 510, 511, 512, 600]
 GAPS_US = [0, 0, 1, 999, 49_999, 50_000, 50_001, 1_000_000, 60_000_000]
 
@@ -458,6 +460,51 @@ def gen_big_hosts(rng, name, v6, extra=6, hit="client_then_server"):
     return c
 
 
+def gen_turns_stream(rng, sid, hosts, src, t0_ns, nturns, big_every=0):
+    """a chatty stream: nturns data packets with alternating direction -> nturns segmentation varints
+    (1 byte each for sizes < 128, 2 bytes with big_every: sizes >= 128). Internal buffers of the code under test:
+    bufio 4096, AddIndex segmentation block 4096 flushed at 4086."""
+    ca, sa = hosts[0], hosts[-1]
+    if len(ca) != len(sa):
+        sa = ca
+    pk, da = [], []
+    cap = src.caps[0]
+    d = rng.randrange(2)
+    for i in range(nturns):
+        t = t0_ns + i * 1000 * rng.choice([1, 1, 2, 60000])
+        if pk:
+            t = max(t, pk[-1][0] * 10 ** 9 + pk[-1][1])
+        pk.append([t // 10 ** 9, t % 10 ** 9, d, [src.take(cap)]])
+        ln = 1 + (i % 3)
+        if big_every and i % big_every == 0:
+            ln = 128 + (i % 200)
+        da.append([i, ln, i & 255])
+        d ^= 1
+    return {"id": sid, "flags": 0, "ca": ca, "cp": 4444, "sa": sa, "sp": 80, "pk": pk, "da": da}
+
+
+# segmentation sizes around the internal buffers: 4086/4096 (one block), 8172/8192 (two blocks), three blocks
+TURNS = [4080, 4086, 4087, 4096, 4100, 4400, 8170, 8173, 8192, 8200, 9000, 12300]
+
+
+def gen_many_turns(rng, name, nturns=None, big_every=0):
+    nturns = nturns or rng.choice(TURNS)
+    hosts = [rand_host(rng, False) for _ in range(3)]
+    src = Src(rng, 2)
+    tb = time_base(rng)
+    ids = gen_ids(rng, 5, False)
+    pos = rng.randrange(0, 3)
+    ss = []
+    for k, sid in enumerate(ids):
+        if k == pos:
+            ss.append(gen_turns_stream(rng, sid, hosts, src, tb + k * 10 ** 9, nturns, big_every))
+        else:
+            ss.append(gen_stream(rng, sid, hosts, src, tb + k * 10 ** 9 + rng.randrange(1000), {"maxpk": 6, "p_flip": 0.5}))
+    c = {"name": name, "regime": "many_turns", "streams": ss}
+    add_probes(rng, c)
+    return c
+
+
 REGIMES = ["few_hosts", "mixed_hosts", "sparse_ids", "chunks", "empty_runs", "timing", "long", "captures", "rebase", "multi_src_data", "everything"]
 
 
@@ -631,6 +678,10 @@ def main(tier, seed, replay=None):
         for i in range(n):
             reg = REGIMES[i % len(REGIMES)]
             cases.append(gen_case(rng, reg, "g%d_%s" % (i, reg)))
+        # chatty streams: segmentation longer than one / two / three internal 4096-byte blocks, followed by other streams
+        turns = [4400, 8200, 4087] if tier == "quick" else TURNS + TURNS
+        for j, nt in enumerate(turns):
+            cases.append(gen_many_turns(rng, "turns%d_%d" % (j, nt), nt, big_every=(7 if j % 3 == 1 else 0)))
         # host-group overflow: the cheap IPv6 one always, IPv4 in both boundary shapes
         cases.append(gen_big_hosts(rng, "big_v6_cs", True, hit="client_then_server"))
         cases.append(gen_big_hosts(rng, "big_v4_cs", False, hit="client_then_server"))
